@@ -41,6 +41,28 @@ inline std::size_t early_read() {
     });
     return seen + out.size();
 }
+inline cycle_t carried_state(std::size_t n, const std::set<int> &all) {
+    std::less<double> compare;
+    auto join = [compare](const cycle_t &c1, const cycle_t &c2) {
+        if (!std::get<2>(c1) || !std::get<2>(c2)) {
+            return std::get<2>(c1) ? c1 : c2;
+        }
+        return compare(std::get<1>(c2), std::get<1>(c1)) ? c2 : c1;
+    };
+    return tbb::parallel_reduce(tbb::blocked_range<std::size_t>(0, n),
+            std::make_tuple(std::set<int>(), (std::numeric_limits<double>::max)(), false),
+            [&](tbb::blocked_range<std::size_t> r, cycle_t running_min) {
+                std::set<int> hidden = all;                  // R03e: assumes the sub-range starts at 0
+                for (std::size_t i = r.begin(); i < r.end(); i++) {
+                    cycle_t res = search(i + hidden.size());
+                    hidden.erase(hidden.begin());
+                    if (std::get<2>(res) && (!std::get<2>(running_min) || compare(std::get<1>(res), std::get<1>(running_min)))) {
+                        running_min = res;
+                    }
+                }
+                return running_min;
+            }, join);
+}
 inline cycle_t bad_reduce(std::size_t n) {
     std::less<double> compare;
     auto join = [compare](const cycle_t &c1, const cycle_t &c2) {
@@ -66,5 +88,5 @@ inline cycle_t bad_reduce(std::size_t n) {
 }
 double use_c03(std::vector<double> &w, std::vector<std::vector<int>> &rows) {
     positive::racy_rows(rows, 1);
-    return positive::racy_sum(w) + positive::early_read() + std::get<1>(positive::bad_reduce(10));
+    return positive::racy_sum(w) + positive::early_read() + std::get<1>(positive::bad_reduce(10)) + std::get<1>(positive::carried_state(10, std::set<int>()));
 }
